@@ -480,4 +480,26 @@ func NewReportTotalsCommand$1$1 returns (err)
     assert @files [C16] len(#arg0) == 2 && #arg0[0] == o.GlobalConfig.DbFileName && #arg0[1] == o.GlobalConfig.LogFileName
   }
 
+
+// the command's own flag table: the option names the options loader and the reporters read (C16)
+func newReportElementTotalCommand returns (cmd)
+  props C16 C08
+  ensures @name [C16] cmd != nil && cmd.Name == "element-total"
+  ensures @flags [C16] len(cmd.Flags) == 1 && CmdBoolFlag(cmd.Flags[0], "desc")
+
+func newReportUnresolvedCommand returns (cmd)
+  props C16 C08
+  ensures @name [C16] cmd != nil && cmd.Name == "unresolved"
+  ensures @flags [C16] len(cmd.Flags) == 0
+
+func newReportQuantityCommand returns (cmd)
+  props C16 C08
+  ensures @name [C16] cmd != nil && cmd.Name == "quantity"
+  ensures @flags [C16] len(cmd.Flags) == 1 && CmdBoolFlag(cmd.Flags[0], "desc")
+
+func NewReportTotalsCommand returns (cmd)
+  props C16 C08
+  ensures @name [C16] cmd != nil && cmd.Name == "totals"
+  ensures @flags [C16] len(cmd.Flags) == 0
+
 @*/
